@@ -82,3 +82,22 @@ package markdown
 //@   modifies ghost:parsedNow, ghost:registered, Config.Scripts, Config.Styles, Dispenser.cursor, Dispenser.nesting, MD:map[string]*github.com/tmpim/casket/caskethttp/markdown.cachedFileInfo, MD:map[string]struct{}, MV:map[string]*github.com/tmpim/casket/caskethttp/markdown.cachedFileInfo, MV:map[string]struct{}
 //@   at call (*github.com/tmpim/casket/caskethttp/httpserver.SiteConfig).AddMiddleware before [registered_after_this_runs_own_parse] parsedNow == 1
 //@   ensures [one_handler_on_success_none_on_error] parsedNow == 1 && (result == nil ==> registered == 1) && (result != nil ==> registered == 0)
+
+//@ unit template_helpers frames=on props=C11 nilchecks=on filter=`markdown\.(SetTemplate|GetDefaultTemplate)$`
+//@ // what markdown_parse assumes of the two template helpers, verified: the default template exists (template.Must panics
+//@ // otherwise - at the first `markdown` directive of any configuration, so a constant that does not parse cannot ship), and
+//@ // SetTemplate writes nothing the parser holds (the template set is text/template's own state)
+//@ use @verif/specs/stdlib.spec:stdlib
+//@ extern text/template.New
+//@   ensures result != nil
+//@ extern (*text/template.Template).New
+//@   ensures result != nil
+//@ extern (*text/template.Template).Parse
+//@ extern (*text/template.Template).Lookup
+//@ extern text/template.Must
+//@   ensures result != nil
+//@ extern io/ioutil.ReadFile
+//@ func GetDefaultTemplate
+//@   ensures result != nil
+//@ func SetTemplate
+//@   requires t != nil
